@@ -424,14 +424,21 @@ Lemma edge_match_mtg_project cfg k h p : c_enames cfg = [k] ->
   edge_match_mtg (project_edge_mtg cfg h) (project_edge_mtg cfg p) = edge_match_mtg_raw k h p.
 Proof.
   intros E. unfold project_edge_mtg, edge_match_mtg_raw. rewrite E. simpl.
-  destruct (LGraph.assoc k h) as [[a|a]|], (LGraph.assoc k p) as [[b|b]|]; reflexivity.
+  destruct (LGraph.assoc k h) as [a|], (LGraph.assoc k p) as [b|]; simpl; try reflexivity.
+  - rewrite evalue_code_eqb. destruct a, b; reflexivity.
+  - destruct a; reflexivity.
 Qed.
 
 Lemma project_mtg_ids cfg g : node_ids (project_mtg cfg g) = node_ids g.
 Proof. unfold node_ids, project_mtg. simpl. rewrite map_map. apply map_ext. reflexivity. Qed.
 
 Lemma t_step_search cfg st st' o : t_is_read o = false -> t_step cfg st o = t_step cfg st' o.
-Proof. destruct o; simpl; [reflexivity|reflexivity|discriminate]. Qed.
+Proof. destruct o; simpl; [reflexivity|reflexivity|discriminate|reflexivity|reflexivity]. Qed.
+
+(** the MTG facade forwards mcs_mol: find_rc_mapping(rc1, rc2, mcs_mol=True) is the mcs_mol search on the right side of rc1 and
+    the left side of rc2 *)
+Lemma t_rc_mol_is_find_mol cfg st x choice : t_step cfg st (TRcMol x choice) = t_step cfg st (TFindMol (rc_r1 x) (rc_l2 x) choice).
+Proof. reflexivity. Qed.
 
 Lemma t_run_reads cfg st rds : forallb t_is_read rds = true -> t_run cfg st rds = st.
 Proof.
@@ -492,7 +499,7 @@ Definition cm : config := mk_config_mtg {| ma_names := None; ma_defs := None; ma
 Example mtg_history : t_run cm t_init [TRead; TFind gB gA true; TRead; TFind gA gB true; TRead] =
                       {| t_maps := [[(1, 6); (2, 5)]%N]; t_last := 2 |}.
 Proof. vm_compute. reflexivity. Qed.
-(** a value float() rejects never matches in this copy, not even itself *)
-Example mtg_tuple_order : t_last (t_run cm t_init [TFind gT gT true]) = 1.
-Proof. vm_compute. reflexivity. Qed.
+(** a value float() rejects equals only itself (after repair /repo 24a0150; before it, it matched nothing) *)
+Example mtg_tuple_order : t_last (t_run cm t_init [TFind gT gT true]) = 2 /\ t_last (t_run cm t_init [TFind gA gT true]) = 1.
+Proof. split; vm_compute; reflexivity. Qed.
 End Example_mtg.
